@@ -178,41 +178,56 @@ func purBody(c *PCase) (body string, cond string, err string) {
 		s, _ := applyOp(c, recv, false)
 		return s
 	}
-	var out string
-	switch c.Path {
-	case "direct":
-		out = stmt(root)
-	case "optchain":
-		pre = append(pre, fmt.Sprintf("var o: %s? = %s", ot, root))
-		out = stmt("o?")
-	case "force":
-		pre = append(pre, fmt.Sprintf("var o: %s? = %s", ot, root))
-		out = stmt("o!")
-	case "iflet":
-		pre = append(pre, fmt.Sprintf("var o: %s? = %s", ot, root))
-		out = "if var u = o {\n" + indent(stmt("u"), "  ") + "}"
-	case "wrapper":
-		pre = append(pre, fmt.Sprintf("let w = W(%s)", root))
-		out = stmt("w.r")
-	case "arrayof":
-		pre = append(pre, fmt.Sprintf("var rs: [%s] = [%s]", ot, root))
-		out = stmt("rs[0]")
-	case "closure":
-		out = "let g = fun () {\n" + indent(stmt(root), "  ") + "}\ng()"
-	case "viewclosure":
-		out = "let g = view fun () {\n" + indent(stmt(root), "  ") + "}\ng()"
-	case "derefcopy":
-		pre = append(pre, fmt.Sprintf("var cp = *%s", root))
-		out = stmt("cp")
-	case "boundfn":
-		t := opTmpls[c.Op]
-		if t.method == "" {
-			return "", "", "operation has no bound-function form"
+	elems := strings.Split(c.Path, "+")
+	bad := ""
+	// walk applies the path elements left to right: recv is the current receiver expression,
+	// ref tells whether it is a reference; closures wrap everything that follows
+	var walk func(elems []string, recv string, ref bool, n int) string
+	walk = func(elems []string, recv string, ref bool, n int) string {
+		if len(elems) == 0 {
+			return stmt(recv)
 		}
-		out = fmt.Sprintf("let bf = %s.%s\nbf(%s)", root, t.method, t.args)
-	default:
-		return "", "", "unknown path " + c.Path
+		ot := ty
+		if ref {
+			ot = "auth(Mutate) &" + ty
+		}
+		rest := elems[1:]
+		switch elems[0] {
+		case "direct":
+			return walk(rest, recv, ref, n+1)
+		case "optchain":
+			return fmt.Sprintf("var o%d: %s? = %s\n", n, ot, recv) + walk(rest, fmt.Sprintf("o%d?", n), ref, n+1)
+		case "force":
+			return fmt.Sprintf("var o%d: %s? = %s\n", n, ot, recv) + walk(rest, fmt.Sprintf("o%d!", n), ref, n+1)
+		case "iflet":
+			return fmt.Sprintf("var o%d: %s? = %s\nif var u%d = o%d {\n", n, ot, recv, n, n) +
+				indent(walk(rest, fmt.Sprintf("u%d", n), ref, n+1), "  ") + "}"
+		case "wrapper":
+			return fmt.Sprintf("let w%d = W(%s)\n", n, recv) + walk(rest, fmt.Sprintf("w%d.r", n), true, n+1)
+		case "arrayof":
+			return fmt.Sprintf("var rs%d: [%s] = [%s]\n", n, ot, recv) + walk(rest, fmt.Sprintf("rs%d[0]", n), ref, n+1)
+		case "closure":
+			return fmt.Sprintf("let g%d = fun () {\n", n) + indent(walk(rest, recv, ref, n+1), "  ") + fmt.Sprintf("}\ng%d()", n)
+		case "viewclosure":
+			return fmt.Sprintf("let g%d = view fun () {\n", n) + indent(walk(rest, recv, ref, n+1), "  ") + fmt.Sprintf("}\ng%d()", n)
+		case "derefcopy":
+			return fmt.Sprintf("var cp%d = *%s\n", n, recv) + walk(rest, fmt.Sprintf("cp%d", n), false, n+1)
+		case "boundfn":
+			t := opTmpls[c.Op]
+			if t.method == "" || len(rest) != 0 {
+				bad = "operation has no bound-function form"
+				return ""
+			}
+			return fmt.Sprintf("let bf = %s.%s\nbf(%s)", recv, t.method, t.args)
+		}
+		bad = "unknown path element " + elems[0]
+		return ""
 	}
+	out := walk(elems, root, isRef, 1)
+	if bad != "" {
+		return "", "", bad
+	}
+	_ = ot
 	pre = append(pre, out)
 	return strings.Join(pre, "\n"), "", ""
 }
